@@ -91,6 +91,7 @@ class Uniform(DPMechanism):
     @copy_docstring(Laplace.randomise)
     def randomise(self, value):
         self._check_all(value)
+        value = float(value)  # a numpy float32/float16 input would otherwise have the sum taken in its own type
 
         unif_rv = 2 * self._rng.random() - 1
         unif_rv *= self.sensitivity / self.delta / 2
